@@ -5,6 +5,7 @@ prop, tier, seed, t0 = sys.argv[1], sys.argv[2], int(sys.argv[3]), float(sys.arg
 allparts = [json.load(open(p)) for p in sys.argv[5:]]
 parts = [p for p in allparts if p.get("source", "rnd") != "sys"]
 sysparts = [p for p in allparts if p.get("source") == "sys"]
+soak = [p for p in parts if str(p.get("source", "")).startswith("soak")]
 tot = lambda k: sum(p[k] for p in parts)
 fk = lambda k: sum(p["faults_fired"][k] for p in parts)
 wall = time.time() - t0
@@ -20,7 +21,7 @@ ev = {
  "coverage": {
   "evaluations": tot("runs") + sum(p["runs"] for p in sysparts),
   "distinct_nontrivial": tot("distinct_nontrivial_runs"),
-  "rule": "one evaluation = one simulated run: 1-4 real caller threads (only one runs at a time; the simulator decides at every sink write, at every operation boundary and - in about half of the multi-threaded runs - at every allocation the library makes inside a display (and, in the f64-fnseam configuration, at every function entry and atomic operation of the library's display path), who proceeds), each performing 1-5 Display operations (quantity value / unit / rate x literal format specification x amount class) into a fault-injecting fmt::Write sink; most runs are executed by long-lived worker processes, one eighth as many again by short-lived ('cold') processes of 6 runs each; everything is derived from the run seed = f(VERIF_SEED, run index). A run is non-trivial if the simulation dimension was exercised in it: a thread switch in the middle of a display (at a sink write or at a library allocation), a fired sink error (sticky, or exactly one rejected write), a fired (and caught) sink panic, or a re-entrant display issued by the sink; runs are distinct by (operation lists, schedule trace) hash. Oracle: every display that completed Ok on a sink that never failed must have delivered exactly the reference-model text (sim/src/model.rs), plus parse-back and fractional-digit checks that bypass the model; a display that returns Ok although the sink refused one of its writes must nevertheless have delivered the model text.",
+  "rule": "one evaluation = one simulated run: 1-4 real caller threads (only one runs at a time; the simulator decides at every sink write, at every operation boundary and - in about half of the multi-threaded runs - at every allocation the library makes inside a display (and, in the f64-fnseam configuration, at every function entry and atomic operation of the library's display path), who proceeds), each performing 1-5 Display operations (quantity value / unit / rate x literal format specification x amount class) into a fault-injecting fmt::Write sink; most runs are executed by long-lived worker processes, per type one 'soak' run displays values of that type 200 000 times over (3 M in the thorough tier) on one thread of one process, one eighth as many again by short-lived ('cold') processes of 6 runs each; everything is derived from the run seed = f(VERIF_SEED, run index). A run is non-trivial if the simulation dimension was exercised in it: a thread switch in the middle of a display (at a sink write or at a library allocation), a fired sink error (sticky, or exactly one rejected write), a fired (and caught) sink panic, or a re-entrant display issued by the sink; runs are distinct by (operation lists, schedule trace) hash. Oracle: every display that completed Ok on a sink that never failed must have delivered exactly the reference-model text (sim/src/model.rs), plus parse-back and fractional-digit checks that bypass the model; a display that returns Ok although the sink refused one of its writes must nevertheless have delivered the model text.",
   "samples": samples,
   "simulated_runs": tot("runs") + sum(p["runs"] for p in sysparts),
   "seeded_search_runs": tot("runs"),
@@ -29,6 +30,7 @@ ev = {
     "exhaustive": True,
     "per_backend": [{"backend": p["backend"], "plans": p["runs"], "display_operations_judged": p["ops_judged"], "faults_fired": p["faults_fired"], "thread_switches_inside_a_display": p["thread_switches_inside_a_display"], "violations": p["violations"], "wall_s": p["wall_s"]} for p in sysparts],
   },
+  "soak_runs": [{"backend": p["backend"], "single_thread_histories": p["runs"], "displays_per_history": int(str(p["source"]).split(":")[1]), "display_operations": p["ops"], "judged": p["ops_judged"], "violations": p["violations"], "wall_s": p["wall_s"]} for p in soak],
   "runs_per_hour": int(tot("runs") / max(sum(p["wall_s"] for p in parts), 1e-9) * 3600),
   "display_operations": tot("ops"),
   "display_operations_judged_against_model": tot("ops_judged"),
